@@ -6,3 +6,9 @@ import "github.com/cenkalti/rain/v2/internal/webseedsource"
 func (p *PiecePicker) ZZWebseedOwner(i uint32) *webseedsource.WebseedSource {
 	return p.pieces[i].RequestedWebseed
 }
+
+// ZZSetMaxWebseedPieces sets the cap on the length of a web-seed range. The
+// picker derives it from the piece count (5%, at least 1); fixtures with a
+// handful of pieces set it directly - as the repository's own picker tests do -
+// so that multi-piece ranges (stealing, truncation) are exercised.
+func (p *PiecePicker) ZZSetMaxWebseedPieces(n int) { p.maxWebseedPieces = n }
